@@ -84,6 +84,11 @@ KNOWN = {
         "with the delimiter '-' a row of four empty cells is written as the line '---', which read_scsv takes for the YAML fence",
         _S([{"name": n, "type": "string", "fill": "x"} for n in "abcd"], d="-", m="N"), [["p", "", "q"]] * 4,
         lambda r: r[0] == "READ-ERR"),
+    "C16:write_scsv_header:unit-breaks-yaml": (
+        "the unit of a field is written unquoted into the header: a unit that is not a plain YAML scalar ('%' - the docstring example of "
+        "parse_scsv_schema -, 'a: b', '[', '*', '-', ...) makes the saved file unreadable (YAML error)",
+        _S([{"name": "a", "type": "float", "fill": "NaN", "unit": "%"}]), [[1.5, 2.5]],
+        lambda r: r[0] == "READ-ERR" and r[1] == "EYaml"),
     "C16:write_scsv_header:yaml-special-character": (
         "a CSV-legal delimiter that YAML does not accept verbatim (C0 control characters other than tab, DEL, NEL) is written "
         "unescaped into the header; the saved file cannot be read back",
@@ -633,6 +638,48 @@ def marker_text_in_numeric_column(s, data):
         return False
 
 
+def unit_breaks_yaml(s):
+    """a field whose unit, written verbatim after 'unit: ', is not loadable YAML"""
+    for f in s.get("fields") or []:
+        if isinstance(f, dict) and isinstance(f.get("unit"), str):
+            try:
+                yaml.safe_load("k:\n  - name: 'a'\n    unit: " + f["unit"] + "\n    fill: 'x'\n")
+            except yaml.YAMLError:
+                return True
+    return False
+
+
+def finding_keys(s, data):
+    """every recorded finding the input carries by itself (whatever else is wrong with it): inputs that carry one which still
+    reproduces on the unchanged tree are poor witnesses of a *new* failure and are tried last by the search"""
+    keys = set()
+    try:
+        fs = s["fields"]
+        texts = out_texts(s, data)
+        if len(fs) == 1 and "---" in texts[0]:
+            keys.add("C16:read_scsv:single-column-yaml-fence")
+        if dash_fence_rows(s["delimiter"], zip(*texts)):
+            keys.add("C16:read_scsv:dash-delimited-empty-row-is-fence")
+        if yaml_special(s["delimiter"]) or yaml_special(s["missing"]) or any(
+                yaml_special(x) for f in fs for x in (f.get("name"), f.get("fill"), f.get("unit")) if isinstance(x, str)):
+            keys.add("C16:write_scsv_header:yaml-special-character")
+        if not namedtuple_ok([f["name"] for f in fs]):
+            keys.add("C16:read_scsv:namedtuple-rejects-identifier")
+        if unit_breaks_yaml(s):
+            keys.add("C16:write_scsv_header:unit-breaks-yaml")
+        for f, col in zip(fs, data):
+            t = f.get("type", "string")
+            if t != "string" and any(str(d) == s["missing"] for d in col):
+                keys.add("C16:read_scsv:number-text-equals-missing")
+            if t == "string" and f.get("fill") == "NaN" and any(d == "NaN" for d in col):
+                keys.add("C16:_parse_scsv_cell:string-fill-NaN")
+        if marker_text_in_numeric_column(s, data):
+            keys.add("C16:save_scsv:marker-text-in-numeric-column")
+    except Exception:  # noqa: BLE001
+        pass
+    return keys
+
+
 def classify(s, data, loaded):
     """which hypothesis of C16_roundtrip fails on a case the property statement covers"""
     if len(s["fields"]) == 1 and "---" in out_texts(s, data)[0]:
@@ -640,8 +687,10 @@ def classify(s, data, loaded):
     if dash_fence_rows(s["delimiter"], zip(*out_texts(s, data))):
         return "C16:read_scsv:dash-delimited-empty-row-is-fence"
     if yaml_special(s["delimiter"]) or yaml_special(s["missing"]) or any(
-            yaml_special(x) for f in s["fields"] for x in (f.get("name"), f.get("fill")) if isinstance(x, str)):
+            yaml_special(x) for f in s["fields"] for x in (f.get("name"), f.get("fill"), f.get("unit")) if isinstance(x, str)):
         return "C16:write_scsv_header:yaml-special-character"
+    if loaded is None and unit_breaks_yaml(s):
+        return "C16:write_scsv_header:unit-breaks-yaml"
     if loaded is None:
         return "C16:write_scsv_header:scalar-breaks-yaml"
     fs, fs2 = s["fields"], loaded.get("fields", []) if isinstance(loaded, dict) else []
@@ -857,6 +906,17 @@ EXTRA_FAULTS = ("long_delimiter", "empty_delimiter", "field_without_name", "name
                 "zero_rows", "fill_not_convertible", "accepted_wrong_kind")
 FILE_FAULTS = ("file_missing_key", "file_column_renamed", "file_ragged_row", "file_unparsable_cell", "file_extra_column",
                "file_no_rows", "file_bad_type", "file_numeric_without_fill", "file_padded_cells", "file_intact")
+
+
+def fence_parts(text):
+    """[text before the first fence line, header block, body] of a written file; the fences are whole LINES '---' (a header
+    line that merely ends in '---', e.g. a unit '---', is not a fence)"""
+    lines = text.split(os.linesep)
+    idx = [i for i, ln in enumerate(lines) if ln == "---"][:2]
+    if len(idx) < 2:
+        return [text]
+    join = lambda ls: "".join(x + os.linesep for x in ls)      # noqa: E731
+    return [join(lines[:idx[0]]), join(lines[idx[0] + 1:idx[1]]), os.linesep.join(lines[idx[1] + 1:])]
 
 
 def split_at_second_fence(text):
@@ -1140,7 +1200,7 @@ def gen_quote_cases(cases):
     return out
 
 
-LOOKALIKES = ["True", "true", "TRUE", "T", "t", "yes", "Yes", "1", "0", "no", "False", "1.0", "1.", ".5", "nan", "NaN", "-nan", "inf",
+LOOKALIKES = ["True", "true", "TRUE", "T", "t", "yes", "Yes", "y", "Y", "n", "on", "off", "1", "0", "no", "False", "1.0", "1.", ".5", "nan", "NaN", "-nan", "inf",
               "-inf", "Infinity", "1e3", "1E3", "1e", "0x10", "0b1", "0o7", "1_000", "1__0", "_1", "1_", "+5", "-0", "-0.0", " 7 ",
               "\t8", "9\n", "", " ", "1j", "(1+2j)", "1+2j", "nanj", "abc", "٣", "1,5", "1 000", "--", "-", "NA"]
 
@@ -1302,6 +1362,22 @@ def gen_terse_inputs(rng, n):
     return out
 
 
+HOSTILE_UNITS = ["%", "%d", "a: b", ": x", "x: ", "[", "{", "}", ",", "'", '"x', "*", "&a", "!t", "@", "`", "-", "- x", "? x", "#c", "x #c", "|", ">",
+                 "yes", "null", "1e3", "...", "---", "", " ", "[m]", "(m)", "m]", "percent", "\xb5m", "m/s", "kg m^-3", "\xb0C", "\U0001d4dc",
+                 "it's", "''", "'", "a 'b' c", "\x1f", "k\x7fg", "a\x85b", "\ufffe"]     # the last four: open finding yaml-special-character, through the unit
+
+
+def gen_unit_cases(rng):
+    """the unit of a field is free text: every kind of YAML indicator as a unit, two fields, the unit on either"""
+    out = []
+    for k, u in enumerate(HOSTILE_UNITS):
+        s = {"delimiter": [",", ";", "\t"][k % 3], "missing": "-", "fields": [
+            {"name": "a", "type": "float", "fill": "NaN"}, {"name": "b", "type": "string", "fill": "none"}]}
+        s["fields"][k % 2]["unit"] = u
+        out.append({"kind": "rt", "stream": "units", "schema": s, "data": [[1.5, float("nan"), 2.5], ["p", "none", "q r"]]})
+    return out
+
+
 def gen_terse_roundtrips(rng, impl_parse):
     """schemas produced by parse_scsv_schema used for a round trip (string fill '' included)"""
     out = []
@@ -1311,7 +1387,9 @@ def gen_terse_roundtrips(rng, impl_parse):
             s = impl_parse(text)
         except Exception:  # noqa: BLE001
             continue
-        data = gen_data(rng, s, nrows=4)
+        plain_cell = {"string": ["p", "q r", "s"], "integer": [1, 7, 3], "float": [1.5, float("inf"), 2.5], "boolean": [True, False, True],
+                      "complex": [1j, 1 + 2j, 0j]}
+        data = [plain_cell[f["type"]] + [TYPEMAP[f["type"]](f["fill"]) if f["type"] != "boolean" else True] for f in s["fields"]]
         out.append({"kind": "rt", "stream": "terse-roundtrip", "schema": s, "data": data})
     return out
 
@@ -1421,6 +1499,7 @@ def gen_cases(chk, tier):
     cases += gen_delimiter_sweep(rng2)
     cases += gen_affix_cases(rng2, 30 * scale)
     cases += gen_lookalike_cases(rng2)
+    cases += gen_unit_cases(rng2)
     for t in gen_terse_inputs(rng2, 70 * scale):
         cases.append({"kind": "terse", "stream": "terse-generated", "text": t})
     if tier != "quick":
@@ -1682,6 +1761,16 @@ def compare(chk, cases, outs):
             r = c["impl"]
             exp = "OK " + schema_to_show(r[1]) if r[0] == "OK" else "ERR " + r[1]
             parts_t = m["T"].split("#")
+            if parts_t[0] == "ERR EUnmodelled":
+                # non-ASCII text before the first ':' : str.find counts code points, the model's strings are UTF-8 bytes; the
+                # model gives no answer (Model_scsv.ascii_prefix) and neither does the generated parser (py_find)
+                count("terse_result", "outside the model (non-ASCII before the first colon)")
+                chk.note_case(("terse", c["text"]), nontrivial=False, sample=None)
+                if GEN_ENTRY and (len(parts_t) < 2 or parts_t[1] != "T:ERR EUnmodelled"):
+                    bad.append((c, f"parse_scsv_schema({c['text']!r}): model outside its domain, generated parser {parts_t[1:]}"))
+                if any(ord(ch) > 127 for ch in c["text"].split(":")[0]) is False:
+                    bad.append((c, f"parse_scsv_schema({c['text']!r}): the model answers EUnmodelled on a text that is ASCII up to the first colon"))
+                continue
             count("terse_result", exp[:3])
             chk.note_case(("terse", c["text"]), nontrivial=True, sample={"terse": c["text"], "impl": exp[:80], "model": parts_t[0][:80]})
             if parts_t[0] != exp:
@@ -1819,7 +1908,7 @@ def compare(chk, cases, outs):
             if ms[0] != "OK":
                 bad.append((c, f"save_scsv wrote a file, model save: {m['S']}"))
             else:
-                parts = c["text"].split("---" + os.linesep, 2)
+                parts = fence_parts(c["text"])
                 # the header block, byte-wise against the model of write_scsv_header
                 ml = dec_res(m["L"], lambda x: [unhex(t[1:]) for t in x.split(",")] if x else [])
                 if ml[0] == "OK":
@@ -2019,7 +2108,8 @@ def _run(chk, ok, br, tmp):
     impl = Impl(tmp)
     chk.cov["trusted_base"] = [
         common.TRUSTED_COMMON[0],
-        "hand-written Model_scsv.v (validate_schema, parse_cell, save, read, parse_terse): tied to the source by this differential run on every generated case (validation result, rows handed to csv.writer byte-wise against the file, returned names and typed values, exception types)",
+        "tie T: translator/specs_scsv.py (Python-ast, fail closed) regenerates coq/gen/Gen_scsv.v from src/pydrex/io.py on every run: _validate_scsv_schema, _parse_scsv_bool, _parse_scsv_cell, parse_scsv_schema, _yaml_quote, write_scsv_header, the constants, and the statement blocks of save_scsv (lengths / fills,types,names / row loop body) and read_scsv (line loop / name check / coltypes,missingstr,fillvals); Inst_scsv*.v prove generated = Model_scsv / Model_scsv_frame / Model_scsv_header for all inputs, and Model_scsv.save = skeleton over the generated blocks.  Trusted there: the translator, the abstraction abs_schema (= the encoding of case terms used here), and the primitives of Model_scsv_py.v (models of Python builtins; compared with the real builtins by the gen-direct stream)",
+        "hand-written and tied by this differential run only (tie H): the skeleton of save_scsv (order of the blocks, csv.writer construction, outer except ValueError) and the tail of read_scsv (yaml.safe_load, csv.reader, namedtuple, the zip(*reader, strict=True) comprehension = read_cols); compared on every generated case: validation result, rows handed to csv.writer byte-wise against the file, header block byte-wise, returned names and typed values, exception types",
         "the line loop of read_scsv (blank lines, --- fences) is modelled (Model_scsv_frame.v: frame) and run by the model on the lines of every file of the 'frame' stream; for the other streams the harness' transcription Impl.split_file is used, which the frame stream compares with the model line by line",
         "text layers are oracles, not modelled: csv.writer/csv.reader (hypotheses: identity on rows of plain cells for CSV-legal delimiters; no written line is blank or a fence; csv.reader inverts csv.writer - checked on every case), text-mode file iteration (universal newlines), str()/int()/float()/complex() (hypothesis t(str(d)) = d instance-wise inside `representable` - evaluated by the model from the real conversions of every string of the case), str.isidentifier, str.strip (checked equal to ASCII strip on every string of the case), collections.namedtuple, PyYAML (the loaded header is passed to the model as data; `header_faithful` is evaluated by the model on it)",
         "float values are named by their Python repr (injective on binary64 up to the sign of zero); Python strings are UTF-8 byte strings in the model; str.lower is ASCII lower in _parse_scsv_bool's model",
@@ -2039,7 +2129,12 @@ def _run(chk, ok, br, tmp):
         "1..8 fields, blank rows first / last / all / consecutive, columns as lists or tuples; (8) files written by save_scsv whose line "
         "structure is edited (13 kinds: blank lines, CRLF, white-space-only lines, fences with surrounding white space / without "
         "terminator, extra fences, text before the first fence) read through the model of the line loop; every 8th round trip is run "
-        "twice (same result) and every call is checked to leave the caller's schema and columns unmodified. distinct = distinct (kind, fault, schema, data); non-trivial = "
+        "twice (same result) and every call is checked to leave the caller's schema and columns unmodified; (10) gen-direct: the generated "
+        "functions on raw Python values (schemas outside the typed model: non-string delimiter / missing, fields that are not lists of dictionaries, "
+        "names / types of any kind; _parse_scsv_cell on 52 look-alike texts x five classes x markers x fills; _parse_scsv_bool); (11) every ASCII "
+        "character as delimiter; missing markers that are affixes of cell texts with the fill of each column occurring as a cell of its neighbour; "
+        "look-alike texts as string cells / fills / markers; 70 generated terse schemas (+ near misses) compared with the hand-written and the generated "
+        "parser; schemas returned by parse_scsv_schema round-tripped; thorough: 10 000 rows. distinct = distinct (kind, fault, schema, data); non-trivial = "
         "the implementation returned at least one cell or raised")
     cases = gen_cases(chk, chk.tier)
     cases += gen_terse_roundtrips(np.random.default_rng(chk.seed + 12), impl.io.parse_scsv_schema)
@@ -2077,10 +2172,21 @@ def _run(chk, ok, br, tmp):
         if pred(r) and key not in fixed:
             reproducing.add(key)
             chk.known_finding(f"key={key} {desc}; witness schema={json.dumps(s)} data={data!r} observed={r[:3]!r}")
-    new = list(unclassified)
+    # a round-trip failure is excused when it is classified as a recorded finding that still reproduces, or when the input
+    # carries the SIGNATURE of one (finding_keys: any field type, any position - delimiter / missing / name / fill / unit -,
+    # independent of the order classify() looks at things and of whether the header could be loaded)
+    def by_signature(c):
+        try:
+            return (c.get("kind") == "rt" and c.get("fault") not in DOCUMENTED_FAULTS
+                    and bool(finding_keys(c["schema"], c["data"]) & reproducing))
+        except Exception:  # noqa: BLE001
+            return False
+    new = [(c, t) for c, t in unclassified if not by_signature(c)]
     for k, v in hits.items():
         if k not in reproducing:
-            new += v
+            new += [(c, t) for c, t in v if not by_signature(c)]
+    chk.cov["excused_by_signature"] = sum(1 for c, _ in unclassified if by_signature(c)) + sum(
+        1 for k, v in hits.items() if k not in reproducing for c, _ in v if by_signature(c))
     chk.cov["open_findings_reproduced"] = sorted(reproducing)
     chk.cov["unexcused_property_failures"] = [t for _, t in new[:10]]
     if ok and not bad and not new:
@@ -2088,6 +2194,12 @@ def _run(chk, ok, br, tmp):
     # ---- something broke: search for a failing input with the property oracle
     found = []
     pool = [c for c, _ in new] + [c for c, _ in bad if c.get("kind") in ("rt", "file")] + [c for c in cases if c["kind"] in ("rt", "file")]
+    # inputs that carry the signature of a recorded finding which still reproduces on this tree fail for that reason as well
+    global SHRINK_AVOID
+    SHRINK_AVOID = set(reproducing)
+    # ... and are no witnesses of anything new: they are not reported (documented-fault cases are judged by the refusal only)
+    pool = [c for c in pool if c["kind"] == "file" or c.get("fault") in DOCUMENTED_FAULTS
+            or not (finding_keys(c["schema"], c["data"]) & reproducing)]
     seen = set()
     for c in pool:
         if c["kind"] == "file":
@@ -2142,16 +2254,21 @@ def _run(chk, ok, br, tmp):
                    no_input=True)
 
 
+SHRINK_AVOID = set()      # recorded findings that reproduce on this tree: reductions that carry one are not taken
+
+
 def shrink(impl, c):
     """fewer rows / fewer columns while the oracle still fails"""
     s, data, fault = c["schema"], c["data"], c.get("fault")
     best = c
+    if finding_keys(s, data) & SHRINK_AVOID:
+        return best
     if fault in DOCUMENTED_FAULTS or not data or not isinstance(s.get("fields"), list):
         return best
     try:                                        # one row, all columns (failures that need the whole line)
         for i in range(len(data[0]) if len(data[0]) > 1 else 0):
             d1 = [[col[i]] for col in data]
-            if oracle(impl, s, d1):
+            if oracle(impl, s, d1) and not (finding_keys(s, d1) & SHRINK_AVOID):
                 best = {"schema": s, "data": d1, "fault": None, "kind": "rt"}
                 break
     except Exception:  # noqa: BLE001
@@ -2161,7 +2278,7 @@ def shrink(impl, c):
             s1 = dict(s, fields=[s["fields"][j]])
             d1 = [[data[j][i]]]
             try:
-                if oracle(impl, s1, d1):
+                if oracle(impl, s1, d1) and not (finding_keys(s1, d1) & SHRINK_AVOID):
                     return {"schema": s1, "data": d1, "fault": None, "kind": "rt"}
             except Exception:  # noqa: BLE001
                 pass
